@@ -10,7 +10,7 @@ import (
 func RunScenario(sc *Scenario, spec *PropSpec) *World {
 	mons := spec.Monitors(sc)
 	if os.Getenv("SIM_TRACE") != "" {
-		mons = append(mons, TraceMon{})
+		mons = append([]Monitor{TraceMon{}}, mons...)
 	}
 	w, cerr := NewWorld(sc, mons...)
 	if cerr != nil {
